@@ -26,7 +26,7 @@ type C12Scenario struct {
 
 func (C12) ID() string { return "C12" }
 func (C12) Rule() string {
-	return "worlds as for C11 (npm/relax and Maven/override only) x options: ignore list, explicit list, dev-dependency switch, MaxDepth 1-3, severity threshold with scored/unscored advisories, NoIntroduce, MavenManagement, MaxUpgrades mostly 1 (also 0 and 2); run 1 = FixVulns under the scenario's schedule vector with 0-2 transient registry/matcher errors and, in 1 of 8 scenarios, an injected failure of the writer's k-th WriteFile/MkdirAll (build-time redirected os calls); run 2 = a fresh, un-faulted read+resolve+match of a copy of the files run 1 left on disk, same options; checked: (1) exactly one applied patch => ids(run 2) = ids(run 1) - fixed + introduced, (2) no patch reported => requirement set read by the harness's own JSON/XML reader unchanged, (3) no vulnerability in an applied patch's Fixed is marked unactionable; nothing is asserted when FixVulns returns an error; non-trivial = run 1 returned without error and found at least one in-scope vulnerability; distinct = distinct scenario JSON"
+	return "worlds as for C11 (npm/relax and Maven/override only) x options: ignore list, explicit list, dev-dependency switch, MaxDepth 1-3, severity threshold with scored/unscored advisories, NoIntroduce, MaxUpgrades mostly 1 (also 0 and 2); run 1 = FixVulns under the scenario's schedule vector with 0-2 transient registry/matcher errors and, in 1 of 8 scenarios, an injected failure of the writer's k-th WriteFile/MkdirAll (build-time redirected os calls); run 2 = a fresh, un-faulted read+resolve+match of a copy of the files run 1 left on disk, same options; checked: (1) exactly one applied patch => ids(run 2) = ids(run 1) - fixed + introduced, (2) no patch reported => requirement set read by the harness's own JSON/XML reader unchanged, (3) no vulnerability in an applied patch's Fixed is marked unactionable; nothing is asserted when FixVulns returns an error; non-trivial = run 1 returned without error and found at least one in-scope vulnerability; distinct = distinct scenario JSON"
 }
 
 func (C12) Gen(rt *rapid.T, tier string) any {
@@ -184,11 +184,26 @@ func (C12) Run(t *testing.T, scn any) *sim.Outcome {
 				// diagnosis for the key: is every reported update on disk (harness reader)?
 				diag := "disk-matches-report"
 				if after, err := readReqs(w, run1); err == nil {
+					eff := map[string]string{} // npm: the effective requirement per key (dev > optional > prod)
+					if w.Sys == "npm" {
+						var entries []NpmEntry
+						for _, k := range sortedKeys(after) {
+							sec, key, _ := strings.Cut(k, "/")
+							entries = append(entries, NpmEntry{Section: sec, Key: key, Spec: after[k]})
+						}
+						for _, q := range npmEffective(entries) {
+							eff[q.Key] = q.Req
+						}
+					}
 					for _, u := range p.PackageUpdates {
 						on := false
-						for k, v := range after {
-							if reqName(w, k, v) == u.Name && reqVersion(w, v) == u.VersionTo {
-								on = true
+						if w.Sys == "npm" {
+							on = eff[updKey(u)] == u.VersionTo
+						} else {
+							for k, v := range after {
+								if reqName(w, k, v) == u.Name && reqVersion(w, v) == u.VersionTo {
+									on = true
+								}
 							}
 						}
 						if !on {
